@@ -270,11 +270,14 @@ Fixpoint forM_ {A} (f : A -> res unit) (l : list A) : res unit :=
   | x :: xs => _ <- f x ;; forM_ f xs
   end.
 
-(* [i for i in versions if i < (3, 4)] : comparing a non-tuple with a tuple raises TypeError *)
-Fixpoint filter_lt34 (l : list val) : res (list val) :=
+(* [i for i in other.versions if other.minVersion <= i <= other.maxVersion]  (since /repo f81c02a;
+   before: `if maxVersion < (3,4): [i for i in versions if i < (3,4)]`).
+   Comparing a non-tuple with a tuple raises TypeError. *)
+Definition in_range (lo hi : Z * Z) (a b : Z) : bool := ver_le lo (a, b) && ver_le (a, b) hi.
+Fixpoint filter_range (lo hi : Z * Z) (l : list val) : res (list val) :=
   match l with
   | [] => Ok []
-  | VPair a b :: xs => r <- filter_lt34 xs ;; Ok (if ver_lt (a, b) (3, 4) then VPair a b :: r else r)
+  | VPair a b :: xs => r <- filter_range lo hi xs ;; Ok (if in_range lo hi a b then VPair a b :: r else r)
   | _ :: _ => Err TypeError
   end.
 
@@ -421,15 +424,13 @@ Definition checks_A (T : tables) (h : heap) (o : settings) : res unit :=
   _ <- sanityCheckPrimitivesNames T (lists h o) (sc o) ;;
   sanityCheckProtocolVersions_raises T (sc o).
 
-(* end of _sanityCheckProtocolVersions:
-   if other.maxVersion < (3, 4): other.versions = [i for i in other.versions if i < (3, 4)]   (new list) *)
+(* end of _sanityCheckProtocolVersions (always a new list):
+   other.versions = [i for i in other.versions if other.minVersion <= i <= other.maxVersion] *)
 Definition step_versions (h : heap) (o : settings) : res (heap * settings) :=
-  if ver_lt (maxVersion (sc o)) (3, 4)
-  then match filter_lt34 (G h o F_versions) with
-       | Ok l => let '(h', p) := halloc h l in Ok (h', set_loc o F_versions p)
-       | Err e => Err e
-       end
-  else Ok (h, o).
+  match filter_range (minVersion (sc o)) (maxVersion (sc o)) (G h o F_versions) with
+  | Ok l => let '(h', p) := halloc h l in Ok (h', set_loc o F_versions p)
+  | Err e => Err e
+  end.
 
 (* if other.maxVersion < (3, 3): other.macNames = [e for e in self.macNames if e == "sha" or e == "md5"] *)
 Definition keep_old_mac (e : val) : bool := py_eq e (VStr "sha") || py_eq e (VStr "md5").
